@@ -275,6 +275,7 @@ CHECKS["C14"] = {
         {"part": "fullrt", "pkg": "./fullrt/", "test": "TestVerif_C14_FullRT", "quick": 400, "thorough": 4000},
         {"part": "buffered", "pkg": "./provider/buffered/", "test": "TestVerif_C14_Buffered", "quick": 600, "thorough": 10000},
         {"part": "records", "pkg": "./records/", "test": "TestVerif_C14_Records", "quick": 400, "thorough": 6000},
+        {"part": "keystore", "pkg": "./provider/keystore/", "test": "TestVerif_C14_Keystore", "quick": 400, "thorough": 6000},
         {"part": "dual", "pkg": "./dual/", "test": "TestVerif_C14_Dual", "quick": 300, "thorough": 3000},
     ],
 }
